@@ -188,7 +188,7 @@ pub fn check_case(ctx: &Ctx, case: &Case, rw: &Rewrite, repeats: usize, with_cli
     // ---- (c) the same file through the binary, twice
     if with_cli {
         if let Some(bin) = &ctx.cli_debug {
-            cli_twice(bin, case, &text2, t);
+            cli_twice(bin, case, &text2, &rf, t);
         }
     }
     if ep0.is_some() && (orders.len() >= 2 || !rw.names().is_empty()) && carriers_of(base.as_ref().unwrap()).len() >= 2 {
@@ -203,7 +203,7 @@ pub fn check_case(ctx: &Ctx, case: &Case, rw: &Rewrite, repeats: usize, with_cli
     }
 }
 
-fn cli_twice(bin: &std::path::Path, case: &Case, text: &str, t: &mut Tally) {
+fn cli_twice(bin: &std::path::Path, case: &Case, text: &str, rf: &RefOut, t: &mut Tally) {
     let dir = cli::scratch_dir("c10");
     let cpath = dir.join("c.csv");
     let _ = std::fs::write(&cpath, text);
@@ -252,7 +252,7 @@ fn cli_twice(bin: &std::path::Path, case: &Case, text: &str, t: &mut Tally) {
         t.violation("C10.process_outcome_differs", format!("two runs of cteepbd on the same file end differently: {:?}/{:?} vs {:?}/{:?}", r1.code, r1.signal, r2.code, r2.signal), wit);
     } else if r1.code == Some(0) {
         let rep = |s: &str| -> String { s.split("** Eficiencia energética").nth(1).unwrap_or("").to_string() };
-        if !cli::reports_equal(&rep(&r1.stdout), &rep(&r2.stdout), 0.011) {
+        if !cli::reports_equal(&rep(&r1.stdout), &rep(&r2.stdout), report_slack(rf)) {
             t.violation("C10.process_report_differs", "two runs of cteepbd on the same file print different reports".into(), || {
                 let mut w = wit();
                 w["first"] = json!(rep(&r1.stdout));
@@ -262,7 +262,7 @@ fn cli_twice(bin: &std::path::Path, case: &Case, text: &str, t: &mut Tally) {
         }
         match (j1, j2) {
             (Some(a), Some(b)) => {
-                if let Some(d) = json_diff(a, b, "") {
+                if let Some(d) = json_diff(a, b, "", &|p| json_band(rf, p)) {
                     t.violation("C10.process_json_differs", format!("two runs of cteepbd on the same file write different JSON results: {d}"), wit);
                 }
             }
@@ -277,11 +277,11 @@ fn cli_twice(bin: &std::path::Path, case: &Case, text: &str, t: &mut Tally) {
 
 /// first difference between two JSON results: object key order ignored, arrays of components compared as
 /// multisets, numbers within rounding of the 3-decimal serialisation
-pub fn json_diff(a: &Value, b: &Value, path: &str) -> Option<String> {
+pub fn json_diff(a: &Value, b: &Value, path: &str, band: &dyn Fn(&str) -> f64) -> Option<String> {
     match (a, b) {
         (Value::Number(x), Value::Number(y)) => {
             let (x, y) = (x.as_f64().unwrap_or(f64::NAN), y.as_f64().unwrap_or(f64::NAN));
-            if (x - y).abs() <= 2.1e-3 + 3e-6 * x.abs().max(y.abs()) {
+            if (x - y).abs() <= 2.1e-3 + 3e-6 * x.abs().max(y.abs()) + band(path) || (x.is_nan() && y.is_nan()) {
                 None
             } else {
                 Some(format!("{path}: {x} vs {y}"))
@@ -291,7 +291,7 @@ pub fn json_diff(a: &Value, b: &Value, path: &str) -> Option<String> {
             for (k, v) in x {
                 match y.get(k) {
                     Some(w) => {
-                        if let Some(d) = json_diff(v, w, &format!("{path}.{k}")) {
+                        if let Some(d) = json_diff(v, w, &format!("{path}.{k}"), band) {
                             return Some(d);
                         }
                     }
@@ -314,7 +314,7 @@ pub fn json_diff(a: &Value, b: &Value, path: &str) -> Option<String> {
                 let mut used = vec![false; y.len()];
                 'outer: for (i, v) in x.iter().enumerate() {
                     for (j, w) in y.iter().enumerate() {
-                        if !used[j] && json_diff(v, w, "").is_none() {
+                        if !used[j] && json_diff(v, w, "", &|_| 0.0).is_none() {
                             used[j] = true;
                             continue 'outer;
                         }
@@ -324,7 +324,7 @@ pub fn json_diff(a: &Value, b: &Value, path: &str) -> Option<String> {
                 return None;
             }
             for (i, (v, w)) in x.iter().zip(y.iter()).enumerate() {
-                if let Some(d) = json_diff(v, w, &format!("{path}[{i}]")) {
+                if let Some(d) = json_diff(v, w, &format!("{path}[{i}]"), band) {
                     return Some(d);
                 }
             }
